@@ -25,7 +25,7 @@ From Coq Require Import ZArith NArith List String Bool Sorted Permutation.
 From TVGen Require Import Gen_rolling.
 From TV Require Import Appender.RollingModel Appender.RollingTie Appender.RollingTimeProofs Appender.RollingNameProofs.
 From TV Require Import Appender.RollingDirProofs Appender.RollingFsProofs Appender.RollingConcProofs Appender.RollingSeqProofs.
-From TV Require Import Appender.RollingMainProofs Appender.RollingExamples.
+From TV Require Import Appender.RollingMainProofs Appender.RollingExamples Appender.RollingClockProofs.
 Import ListNotations.
 Local Open Scope Z_scope.
 
@@ -219,6 +219,52 @@ Theorem C16_overlap_refuted_without_recheck :
 Proof. exact overlap_refuted. Qed.
 Print Assumptions C16_overlap_refuted_without_recheck.
 
+(** WHICH READING.  A make_writer call reads the clock once, when it starts; the period of a write is the period of
+    THAT reading ([l_t]).  The clock may show anything later in the call - while the winner of the rotation waits for
+    the file lock, or after a step back of the wall clock: [HW2 first i t t2 b] is a complete call during which the
+    clock reads [t] at the start and [t2] from yield_point(1) (between advance_date and refresh_writer) on, [run_h] a
+    sequence of harness operations (complete calls, calls parked at a yield point, releases).  With the source's shape
+    ([first = true], [C16_source_clock_reading]) every clean, not-behind landing is in the file of the period of the
+    reading its call started with, for EVERY later reading [t2] (nothing is assumed about it, not even the range).
+    Non-vacuity: RollingClockProofs.first_reading_example. *)
+Theorem C16_lands_in_period_of_first_reading : forall c sp t0, 0 <= t0 < TBOUND -> GoodFS sp -> recheck c = true ->
+  forall os, Forall valid_hop os -> Forall first_reading_hop os ->
+  forall l, In l (lands (run_h c (restart c sp t0) os)) -> l_life l = S (life sp) -> l_clean l = true -> l_nd l = true ->
+    l_file l = period_file c t0 (l_t l).
+Proof. exact hops_land_in_period_of_first_reading. Qed.
+Print Assumptions C16_lands_in_period_of_first_reading.
+
+(** The file a rotation opens is the one named for the period of the reading that triggered it: the refresh step of
+    a winner whose call started with reading [t] (re-check passing) swaps in [join_date c t], which then exists; and a
+    call during which the clock moves is the same call as one during which it does not - the later reading is not
+    consulted. *)
+Theorem C16_rotation_opens_period_of_triggering_reading : forall c s i t b g,
+  pcs s i = Some (PRefresh t b g) -> readers s = [] -> (recheck c = false \/ next s = next_usize (rot c) t) ->
+  cur (step c s (Step i)) = join_date c t /\ in_dir (join_date c t) (dir (step c s (Step i))) = true /\
+  refreshed (step c s (Step i)) = true /\ pcs (step c s (Step i)) i = Some (PRead t b g) /\
+  refresh_step2 c s i t = step c s (Step i).
+Proof. exact refresh_opens_triggering_period. Qed.
+Print Assumptions C16_rotation_opens_period_of_triggering_reading.
+
+Theorem C16_later_reading_not_consulted : forall c s i t t2 t2' b,
+  hstep c s (HW2 true i t t2 b) = hstep c s (HW2 true i t t2' b) /\ hstep c s (HW2 true i t t2 b) = hstep c s (HW i t b).
+Proof. exact later_reading_not_consulted. Qed.
+Print Assumptions C16_later_reading_not_consulted.
+
+(** ... and the first reading is load-bearing: a make_writer that names the new file after a SECOND reading taken at
+    the refresh (`refresh_writer(self.now(), ..)`; re-check in place) and a wall clock stepped back across the boundary
+    between the two readings (11:00:00, then 10:59:59): next_date has advanced, the older period's file is reopened, and
+    a later overlap-free write of the new period (11:30:00) lands in the file of ANOTHER period - the one of the second
+    reading. *)
+Theorem C16_second_reading_refuted :
+  exists c pre tick0 t0 os,
+    recheck c = true /\ 0 <= t0 < TBOUND /\ PreOK pre tick0 /\ Forall valid_hop os /\
+    exists l, In l (lands (run_h c (init c pre tick0 t0) os)) /\ l_life l = 1%nat /\ l_clean l = true /\ l_nd l = true /\
+              l_file l <> period_file c t0 (l_t l) /\
+              round_date (rot c) (l_t l) <> round_date (rot c) 1580554799 /\ l_file l = join_date c 1580554799.
+Proof. exact second_reading_refuted. Qed.
+Print Assumptions C16_second_reading_refuted.
+
 (** Never lost — every schedule, with or without the re-check (so also the calls that DO overlap a rotation):
     every buffer appended is stored exactly once, whole, in landing order per file name; per thread, the calls
     it completed followed by the one it is inside are the ones it had completed before plus exactly the calls it
@@ -349,3 +395,8 @@ Theorem C16_source_expressions :
    gen_builder_setters = [("filename_prefix", "empty is None"); ("filename_suffix", "empty is None"); ("max_log_files", "Some n")]%string).
 Proof. exact (conj tie_prune_expressions (conj tie_advance_stored tie_builder)). Qed.
 Print Assumptions C16_source_expressions.
+
+(** make_writer names the file of a rotation after the reading taken at the start of the call. *)
+Theorem C16_source_clock_reading : gen_refresh_uses_first_reading = true.
+Proof. exact tie_first_reading. Qed.
+Print Assumptions C16_source_clock_reading.
